@@ -771,6 +771,7 @@ def run_range(case):
     for label, value, valid in table_values(row):
         base = _base_fields(kind)
         got = "<none>"
+        holder = None                   # the detector whose setting an assignment path tries to change
         try:
             if path == "ctor":
                 f = json.loads(json.dumps(base))
@@ -785,11 +786,13 @@ def run_range(case):
                 got = _get(getattr(cfg.detector, sec), field)
             elif path == "setter":
                 det = build_detector(kind, base["geometry"], base["environment"], base["characteristics"])
+                holder = det
                 setattr(getattr(det, sec), field, tuple(value) if isinstance(value, list) else value)
                 got = _get(getattr(det, sec), field)
             elif path in ("yaml+setter", "yaml+procset"):
                 d = {"exposure": {"readout": {"times": [1.0]}}, f"{kind}_detector": base, "pipeline": {}}
                 cfg = pyxel.loads(yaml_text(d))
+                holder = cfg.detector
                 if path == "yaml+setter":
                     setattr(getattr(cfg.detector, sec), field, tuple(value) if isinstance(value, list) else value)
                 else:
@@ -798,6 +801,7 @@ def run_range(case):
             elif path == "procset":
                 det = build_detector(kind, base["geometry"], base["environment"], base["characteristics"])
                 proc = Processor(detector=det, pipeline=build_pipeline({}))
+                holder = proc.detector
                 proc.set(f"detector.{sec}.{field}", value)
                 got = _get(getattr(proc.detector, sec), field)
             elif path == "yaml-sweep":
@@ -828,6 +832,15 @@ def run_range(case):
         except Exception as e:  # noqa: BLE001
             accepted = False
             err = f"{type(e).__name__}: {str(e)[:120]}"
+            if holder is not None and not valid:
+                # a refused assignment must leave the previous (valid) setting in place
+                try:
+                    now = _get(getattr(holder, sec), field)
+                except Exception as e2:  # noqa: BLE001
+                    now = f"<unreadable: {type(e2).__name__}>"
+                if not _same_value(now, base[sec][field]):
+                    bad("refused-but-stored", label, f"value {value!r} ({label}) was refused ({err}) but the setting now "
+                        f"reads {now!r} instead of the previous {base[sec][field]!r}")
         verdicts.append([label, accepted])
         if accepted and not valid:
             bad("invalid-accepted", label, f"value {value!r} ({label}) is outside the documented range but was accepted "
